@@ -241,6 +241,13 @@ func edgeFacts(cond ssa.Value, branch bool) []Fact {
 
 		facts := []Fact{{Kind: "cmp", Op: op, X: c.X, Y: c.Y}}
 
+		// the comparison's own boolean value
+		if branch {
+			facts = append(facts, Fact{Kind: "true", V: cond})
+		} else {
+			facts = append(facts, Fact{Kind: "false", V: cond})
+		}
+
 		if op == token.EQL || op == token.NEQ {
 			x, y := c.X, c.Y
 			if _, ok := x.(*ssa.Const); ok {
@@ -961,6 +968,7 @@ func iterationAvoiding(li *loopInfo, cuts map[Edge]bool, isBarrier func(ssa.Inst
 		facts string
 	}
 
+	worthy := factWorthy(li.header.Parent())
 	seen := map[state]bool{}
 
 	var found *ssa.BasicBlock
@@ -1002,7 +1010,7 @@ func iterationAvoiding(li *loopInfo, cuts map[Edge]bool, isBarrier func(ssa.Inst
 			}
 
 			if facts[f.V] == "" {
-				if len(nf) > 6 {
+				if len(nf) > 40 || !worthy[f.V] {
 					continue // bound the state space
 				}
 
@@ -1067,3 +1075,60 @@ func iterationAvoiding(li *loopInfo, cuts map[Edge]bool, isBarrier func(ssa.Inst
 }
 
 func sortStrings(s []string) { sort.Strings(s) }
+
+// factWorthy returns the values for which a branch fact can ever matter on a
+// later branch of the same function: values tested by two or more Ifs, and
+// values that feed a phi (their fact is transferred to the phi).
+func factWorthy(fn *ssa.Function) map[ssa.Value]bool {
+	count := map[ssa.Value]int{}
+
+	for _, b := range fn.Blocks {
+		if len(b.Instrs) == 0 {
+			continue
+		}
+
+		ifi, ok := b.Instrs[len(b.Instrs)-1].(*ssa.If)
+		if !ok {
+			continue
+		}
+
+		seen := map[ssa.Value]bool{}
+
+		for _, f := range withCellFacts(edgeFacts(ifi.Cond, true)) {
+			if f.V != nil && !seen[f.V] {
+				seen[f.V] = true
+				count[f.V]++
+			}
+		}
+	}
+
+	out := map[ssa.Value]bool{}
+
+	for v, n := range count {
+		if n >= 2 {
+			out[v] = true
+
+			continue
+		}
+
+		if refs := v.Referrers(); refs != nil {
+			for _, r := range *refs {
+				switch r.(type) {
+				case *ssa.Phi, *ssa.Return, *ssa.Store:
+					out[v] = true
+				}
+			}
+		}
+	}
+
+	// phis themselves
+	for _, b := range fn.Blocks {
+		for _, in := range b.Instrs {
+			if ph, ok := in.(*ssa.Phi); ok {
+				out[ph] = true
+			}
+		}
+	}
+
+	return out
+}
